@@ -5,6 +5,9 @@ import (
 	"crypto/sha256"
 	"encoding/hex"
 	"fmt"
+	"io"
+	"net/http"
+	"net/http/httptest"
 	"os"
 	"path/filepath"
 	"strings"
@@ -13,9 +16,12 @@ import (
 	"golang.org/x/crypto/openpgp/clearsign" //nolint
 	"sigs.k8s.io/yaml"
 
+	"helm.sh/helm/v4/pkg/action"
 	chart "helm.sh/helm/v4/pkg/chart/v2"
 	chartutil "helm.sh/helm/v4/pkg/chart/v2/util"
+	"helm.sh/helm/v4/pkg/cli"
 	"helm.sh/helm/v4/pkg/downloader"
+	"helm.sh/helm/v4/pkg/getter"
 	"helm.sh/helm/v4/pkg/provenance"
 )
 
@@ -124,12 +130,18 @@ func provPrims(archive []byte, base string, prov []byte, ringFile string) map[st
 func corrProv(seed uint64, n int, tier string, out string, replay string) {
 	m := StartModel()
 	defer m.Close()
-	rep := NewReport("C17", "prov", seed, "case = a chart archive signed with a freshly generated OpenPGP key, then one mutation: single-byte flip / insertion / deletion / truncation of the archive, of the provenance body, of the signature armor; renamed archive; keyring = signer only / other key only / both; the real Signatory.Verify and downloader.VerifyChart verdict is compared with the model's decision fed with the primitive results (clearsign decode, signature check, digest, message parse) computed with the libraries directly; monitor: no mutant whose archive bytes or signed text differ from the original is accepted; non-trivial = every mutant; distinct = hash of mutation")
+	rep := NewReport("C17", "prov", seed, "case = a chart archive signed with a freshly generated OpenPGP key, then one mutation: single-byte flip / insertion / deletion / truncation of the archive, of the provenance body, of the signature armor; renamed archive; keyring = signer only / other key only / both; the real Signatory.Verify, downloader.VerifyChart, ChartPathOptions.LocateChart with Verify (the install path) and ChartDownloader.DownloadTo over HTTP under the strategies always / if-possible / never (the download path) are run on every case (downloads on every fourth); the Verify verdict is compared with the model's decision fed with the primitive results (clearsign decode, signature check, digest, message parse) computed with the libraries directly; monitor: no mutant whose archive bytes or signed text differ from the original is accepted; non-trivial = every mutant; distinct = hash of mutation")
 	dir, _ := os.MkdirTemp("", "corr-prov")
 	defer os.RemoveAll(dir)
 	env := newProvEnv(dir, NewRng(seed, 0))
 	work := filepath.Join(dir, "work")
 	os.MkdirAll(work, 0o755)
+	// the archives are also served over HTTP for the download path
+	srv := httptest.NewServer(http.FileServer(http.Dir(work)))
+	defer srv.Close()
+	repoCfg := filepath.Join(dir, "repositories.yaml")
+	os.WriteFile(repoCfg, []byte("apiVersion: v1\nrepositories: []\n"), 0o644)
+	dlDest := filepath.Join(dir, "dl")
 	check := func(kind string, archive []byte, name string, prov []byte, ring string, idx int) {
 		ap := filepath.Join(work, name)
 		os.WriteFile(ap, archive, 0o644)
@@ -157,6 +169,36 @@ func corrProv(seed uint64, n int, tier string, out string, replay string) {
 		if (verr == nil) != (derr == nil) {
 			rep.Issue(Issue{Kind: "monitor", Fingerprint: "C17:verifychart-differs", What: fmt.Sprintf("downloader.VerifyChart (%v) and Signatory.Verify (%v) disagree", derr, verr), Case: cs, Seed: seed, Index: idx})
 		}
+		// "with verification required, a download or install whose verification fails returns an error":
+		// install path = ChartPathOptions.LocateChart with Verify on the local archive
+		var lerr error
+		safely(func() {
+			o := action.ChartPathOptions{Verify: true, Keyring: ring}
+			_, lerr = o.LocateChart(ap, cli.New())
+		})
+		if (lerr == nil) != (verr == nil) {
+			rep.Issue(Issue{Kind: "monitor", Fingerprint: "C17:locate-verify-differs", What: fmt.Sprintf("LocateChart with Verify (%v) and Signatory.Verify (%v) disagree", lerr, verr), Case: cs, Seed: seed, Index: idx})
+		}
+		// download path = ChartDownloader.DownloadTo under each verification strategy (every fourth case)
+		if idx%4 == 0 || idx < 5 {
+			for _, st := range []struct {
+				name string
+				v    downloader.VerificationStrategy
+			}{{"always", downloader.VerifyAlways}, {"if-possible", downloader.VerifyIfPossible}, {"never", downloader.VerifyNever}} {
+				os.RemoveAll(dlDest)
+				os.MkdirAll(dlDest, 0o755)
+				var dl error
+				safely(func() {
+					cd := downloader.ChartDownloader{Out: io.Discard, Verify: st.v, Keyring: ring, Getters: getter.Providers{{Schemes: []string{"http"}, New: getter.NewHTTPGetter}}, RepositoryConfig: repoCfg, RepositoryCache: filepath.Join(dir, "cache")}
+					_, _, dl = cd.DownloadTo(srv.URL+"/"+name, "", dlDest)
+				})
+				wantErr := verr != nil && st.v != downloader.VerifyNever
+				rep.H("download:" + st.name + ":" + map[bool]string{true: "error", false: "ok"}[dl != nil])
+				if (dl != nil) != wantErr {
+					rep.Issue(Issue{Kind: "monitor", Fingerprint: "C17:download-verify:" + st.name, What: fmt.Sprintf("DownloadTo with verification %s returned %v although Signatory.Verify says %v", st.name, dl, verr), Case: cs, Seed: seed, Index: idx})
+				}
+			}
+		}
 		prims := provPrims(archive, name, prov, ring)
 		want := m.Query(map[string]any{"op": "provVerify", "prims": prims, "base": name})
 		got := verr == nil
@@ -183,6 +225,40 @@ func corrProv(seed uint64, n int, tier string, out string, replay string) {
 	check("other-key-only", env.archive, env.archiveName, env.prov, env.ringOther, 2)
 	check("renamed", env.archive, "other-1.2.3.tgz", env.prov, env.ringSigner, 3)
 	check("renamed-dir-trick", env.archive, "mychart-1.2.4.tgz", env.prov, env.ringSigner, 4)
+	check("keyring-missing", env.archive, env.archiveName, env.prov, filepath.Join(dir, "no-such-keyring.gpg"), 8)
+	check("keyring-empty-file", env.archive, env.archiveName, env.prov, func() string { p := filepath.Join(dir, "empty.gpg"); os.WriteFile(p, nil, 0o644); return p }(), 12)
+	// no provenance file at all: required verification fails, opportunistic verification lets the chart through
+	{
+		ap := filepath.Join(work, env.archiveName)
+		os.WriteFile(ap, env.archive, 0o644)
+		for _, st := range []struct {
+			name    string
+			v       downloader.VerificationStrategy
+			wantErr bool
+		}{{"always", downloader.VerifyAlways, true}, {"if-possible", downloader.VerifyIfPossible, false}, {"never", downloader.VerifyNever, false}} {
+			os.RemoveAll(dlDest)
+			os.MkdirAll(dlDest, 0o755)
+			var dl error
+			safely(func() {
+				cd := downloader.ChartDownloader{Out: io.Discard, Verify: st.v, Keyring: env.ringSigner, Getters: getter.Providers{{Schemes: []string{"http"}, New: getter.NewHTTPGetter}}, RepositoryConfig: repoCfg, RepositoryCache: filepath.Join(dir, "cache")}
+				_, _, dl = cd.DownloadTo(srv.URL+"/"+env.archiveName, "", dlDest)
+			})
+			rep.H("download-no-prov:" + st.name + ":" + map[bool]string{true: "error", false: "ok"}[dl != nil])
+			rep.Count(map[string]any{"k": "no-prov", "s": st.name}, true)
+			if (dl != nil) != st.wantErr {
+				rep.Issue(Issue{Kind: "monitor", Fingerprint: "C17:download-verify:" + st.name, What: fmt.Sprintf("DownloadTo of a chart without provenance file under verification %s returned %v", st.name, dl), Case: map[string]any{"kind": "no-prov", "strategy": st.name}, Seed: seed, Index: 5})
+			}
+		}
+		var lerr error
+		safely(func() {
+			o := action.ChartPathOptions{Verify: true, Keyring: env.ringSigner}
+			_, lerr = o.LocateChart(ap, cli.New())
+		})
+		if lerr == nil {
+			rep.Issue(Issue{Kind: "monitor", Fingerprint: "C17:locate-verify-differs", What: "LocateChart with Verify accepted an archive that has no provenance file", Case: map[string]any{"kind": "no-prov"}, Seed: seed, Index: 5})
+		}
+		os.Remove(ap)
+	}
 	for i := 0; i < n; i++ {
 		r := NewRng(seed, uint64(i+10))
 		a, p := append([]byte{}, env.archive...), append([]byte{}, env.prov...)
